@@ -137,14 +137,17 @@ def _canary_enhanced_own_cid():
     l2cap.ChannelManager.on_l2cap_credit_based_connection_request = patched
 
 
-@harness(pre=['1 <= credits <= 65535 and 1 <= scredits <= 65535'],
+@harness(pre=['2 <= credits <= 65535 and 1 <= scredits <= 65535'],
          family='setup', twin=True, kernels=K, timeout=(60, 240), grid={'enhanced': [0, 1], 'peer_cid': [0x40, 0x41, 0x7F], 'mtu': [23, 65535], 'mps': [23, 65533], 'smtu': [512], 'smps': [23, 100]}, canaries=[('enhanced-table-keyed-by-own-cid', _canary_enhanced_own_cid)],
          bounds='a peer opens an LE / enhanced credit-based channel with source CID 0x40 (equal to bumble\'s own allocation), 0x41 or 0x7F (different) and symbolic initial credits 1..65535 on both sides, MTU/MPS at the ends of their legal ranges (per condition): the response carries the server parameters, the channel holds the peer\'s, a credit frame for the peer\'s CID reaches the channel, and a write is framed for the peer CID within its MPS/credits')
 def peer_chosen_cid(credits: int, scredits: int, enhanced: int, peer_cid: int, mtu: int, mps: int, smtu: int, smps: int) -> bool:
     with detloop.running() as loop:
         w = Wire(handles=(1,))
         accepted = []
-        w.mgr[1].create_le_credit_based_server(l2cap.LeCreditBasedChannelSpec(psm=0x80, mtu=smtu, mps=smps, max_credits=scredits), handler=accepted.append)
+        def on_channel(ch):
+            accepted.append(ch)
+            ch.write(b'\x09')           # the application may write as soon as it is handed the channel
+        w.mgr[1].create_le_credit_based_server(l2cap.LeCreditBasedChannelSpec(psm=0x80, mtu=smtu, mps=smps, max_credits=scredits), handler=on_channel)
         conn = w.conns[1][1]
         if enhanced:
             req = l2cap.L2CAP_Credit_Based_Connection_Request(identifier=7, spsm=0x80, mtu=mtu, mps=mps, initial_credits=credits, source_cid=[peer_cid])
@@ -155,9 +158,13 @@ def peer_chosen_cid(credits: int, scredits: int, enhanced: int, peer_cid: int, m
         w.mgr[1].send_control_frame = lambda c, cid, frame: (sent_frames.append(frame), real_send(c, cid, frame))
         w.mgr[1].on_pdu(conn, l2cap.L2CAP_LE_SIGNALING_CID, bytes(req))
         loop.run_ready()
-        if len(accepted) != 1 or len(w.q) != 1 or len(sent_frames) != 1:
+        if len(accepted) != 1 or len(w.q) != 2 or len(sent_frames) != 1:
             return False
         ch = accepted[0]
+        # the connection response precedes the first data frame (otherwise the peer, still connecting, drops the data)
+        if w.q[0][2] != l2cap.L2CAP_LE_SIGNALING_CID or w.q[1][2] != peer_cid or w.q[1][3] != b'\x01\x00\x09':
+            return False
+        w.q.pop(0)
         w.q.pop(0)
         rsp = sent_frames[0]            # (the frame object: parsing it back would build enum members from symbolic bytes)
         if rsp.identifier != 7 or rsp.mtu != smtu or rsp.mps != smps or rsp.initial_credits != scredits:
@@ -165,10 +172,12 @@ def peer_chosen_cid(credits: int, scredits: int, enhanced: int, peer_cid: int, m
         dcid = rsp.destination_cid[0] if enhanced else rsp.destination_cid
         if dcid != ch.source_cid or ch.destination_cid != peer_cid:
             return False
-        if (ch.peer_mtu, ch.peer_mps, ch.credits, ch.mtu, ch.mps, ch.peer_credits) != (mtu, mps, credits, smtu, smps, scredits):
+        if (ch.peer_mtu, ch.peer_mps, ch.credits, ch.mtu, ch.mps, ch.peer_credits) != (mtu, mps, credits - 1, smtu, smps, scredits):
             return False
         # the peer returns credits for ITS cid
         before = ch.credits
+        if before != credits - 1:
+            return False              # one credit was spent on the frame written in the callback
         w.mgr[1].on_pdu(conn, l2cap.L2CAP_LE_SIGNALING_CID, bytes(l2cap.L2CAP_LE_Flow_Control_Credit(identifier=8, cid=peer_cid, credits=2)))
         if ch.credits != before + 2:
             return False
@@ -178,7 +187,7 @@ def peer_chosen_cid(credits: int, scredits: int, enhanced: int, peer_cid: int, m
         if not w.q:
             return False
         side, handle, cid, payload = w.q[0]
-        return cid == peer_cid and payload == b'\x03\x00\x01\x02\x03' and ch.credits == before + 1
+        return cid == peer_cid and payload == b'\x03\x00\x01\x02\x03' and ch.credits == before + 1 and credits >= 2
 
 
 @harness(pre=['1 <= max_credits <= 12 and 0 <= frames <= 14'], family='receiver', kernels=K, timeout=(60, 200),
